@@ -66,7 +66,7 @@ CHECKS = {
     'C15': dict(
         technique='TLC exhaustive over query/entry schema arrangements (Entry.tla requirement, MatchEntryImpl.tla as-is scan and cast) '
                   'and tabular view histories (Tabular.tla), every exported vector replayed on the real Reader / drivers / Dense / '
-                  'Frame / Slicer; served payloads that are row selections / labelled frames (EntrySelect.tla); random requests '
+                  'Frame / Slicer; served payloads that are row selections / labelled frames (EntrySelect.tla), sessions on one reader (EntrySession.tla); random requests '
                   'validated by TraceEntry.tla',
         text='Entry.tla defines Aligned (columns by name in query order, values cast to the declared kind, refusal when a column is '
              'missing); MatchEntryImpl.tla transcribes the zip_longest scan and _cast and is checked to refine it; every arrangement '
@@ -216,7 +216,7 @@ CHECKS = {
         technique='TLC exhaustive decision of hint safety over ALL databases within a bound (Hints.tla / HintsMC.tla over RelAlg.tla, '
                   'FactorsImpl.tla as-is factorisation) + hints recorded from the real parser (generate_table override) validated by '
                   'TraceHints.tla and enforced on SQLite against the hint-ignoring run; twin-statement histories through one lazy '
-                  'reader (LazyReads.tla)',
+                  'reader (LazyReads.tla); clause mixes (ClauseMix.tla)',
         text='Hints.tla defines ColumnsComplete, Scoped and Safe (Eval(stmt, db) = Eval(stmt, Restrict(db, H)) for every db of the '
              'universe); HintsMC.tla enumerates statement families x all small databases for the transcribed factorisation; the hints '
              'the real parser offers are recorded through the public generate_table extension point, judged by TLC and honoured on '
